@@ -175,7 +175,8 @@ IsNewExec(prev, step) ==
   /\ \/ Len(step.obs.seq) > Len(prev.seq)
      \/ RecSt(prev, step.call.task, step.call.route) \in {"retrying", "null"}   \* "null": record added by a rerun
 
-TaskResult(d, step) == IF HasItems(d, step.call.task) THEN step.call.acc ELSE step.call.res
+\* (a with-items task over an empty list completes with its own, empty, result)
+TaskResult(d, step) == IF HasItems(d, step.call.task) /\ d.tasks[step.call.task].items > 0 THEN step.call.acc ELSE step.call.res
 
 HStepCore(d, h, prev, step) ==
   LET c   == step.call
@@ -383,7 +384,7 @@ ReqEvent(obs, st) ==
   IF st \in {"pausing", "paused", "canceling", "canceled"}
   THEN base \o (IF ActiveIn(obs) THEN "_workflow_active" ELSE "_workflow_dormant") ELSE base
 C04_forbidden_rejected(prev, step) ==
-  (step.call.op = "req" /\ prev.wf \in {"failed", "canceled", "succeeded", "paused"} /\ step.call.st # prev.wf
+  (step.call.op = "req" /\ prev.wf \in DOMAIN WfT /\ step.call.st # prev.wf
      /\ ~WfHasRow(prev.wf, ReqEvent(prev, step.call.st))
      /\ ~WfHasRow(prev.wf, ReqEvent(prev, step.call.st) \o "_workflow_completed")) => step.ret # "ok"
 C04_reject_class(step) ==
@@ -659,6 +660,17 @@ C18_decided_fixed(prev, step) ==
      /\ prev.seq[i].st   = step.obs.seq[i].st
      /\ prev.seq[i].next = step.obs.seq[i].next
 
+(* what an execution sees is fixed when it starts: the decisions it records and the deltas it publishes *)
+(* when it completes are those of the definition evaluated on the context its own record lists        *)
+C18_seen_fixed(d, h1, prev, step) ==
+  (h1.compl # << >> /\ h1.compl[1].t \in TaskNames(d)) =>
+     LET cm  == h1.compl[1]
+         rec == Rec(step.obs, cm.t, cm.r)
+         dx  == Decide(d, cm.t, cm.st, cm.res, CtxOf(step.obs, rec.ctxin))
+         exp == SelectSeq([i \in 1..Len(dx) |-> IF dx[i].sat THEN dx[i].new ELSE << >>],
+                          LAMBDA f : DOMAIN f # {})
+     IN SubSeq(step.obs.ctxs, Len(prev.ctxs) + 1, Len(step.obs.ctxs)) = exp
+
 (* C19 (purity half): asking for next tasks twice gives the same answer and state. *)
 C19_idem(step) == (step.call.op = "query" /\ step.ret = "ok") =>
                      step.offers2 = step.obs.offers /\ step.pers2 = TRUE
@@ -777,6 +789,7 @@ Failing(d, h0, h1, prev, step) ==
   FP("C18", "C18_ctxs_prefix",     C18_ctxs_prefix(prev, step)) \cup
   FP("C18", "C18_routes_prefix",   C18_routes_prefix(prev, step)) \cup
   FP("C18", "C18_started_fixed",   C18_started_fixed(prev, step)) \cup
+  FP("C18", "C18_seen_fixed",      C18_seen_fixed(d, h1, prev, step)) \cup
   FP("C18", "C18_decided_fixed",   C18_decided_fixed(prev, step)) \cup
   FP("C19", "C19_idem",            C19_idem(step))
 
